@@ -98,6 +98,36 @@ def loop_targets_with_origin(it: Interp, site: ast.AST, suffix: str) -> set[str]
     return out or set()
 
 
+def block_of(func: Func, stmt: ast.AST) -> Optional[list[ast.stmt]]:
+    """the statement list (body / orelse / finalbody / handler body) that contains stmt"""
+    holder = parent(func, stmt)
+    if holder is None:
+        return None
+    for fld in ("body", "orelse", "finalbody"):
+        block = getattr(holder, fld, None)
+        if isinstance(block, list) and any(s is stmt for s in block):
+            return block
+    return None
+
+
+def on_path_before(func: Func, site: ast.AST) -> list[ast.stmt]:
+    """statements that are executed before `site` on every path to it, as far as block structure tells: earlier
+    statements of the blocks that contain site (its own block and those of the enclosing compound statements)"""
+    out: list[ast.stmt] = []
+    cur: Optional[ast.AST] = enclosing_stmt(func, site)
+    while cur is not None and cur is not func.node:
+        block = block_of(func, cur)
+        if block is not None:
+            for s in block:
+                if s is cur:
+                    break
+                out.append(s)
+        cur = parent(func, cur)
+        while cur is not None and not isinstance(cur, ast.stmt):
+            cur = parent(func, cur)
+    return out
+
+
 def same(actual: str, expected: str) -> bool:
     """two expression texts are the same up to the condition normal form (operand order of ==, spacing)"""
     from ..nform import canon_expr
